@@ -73,11 +73,14 @@ def check_text(pest, rep, text: str, rows) -> int:
                             out.append(text[key[0] : key[1]])
                     return out
                 def no_phantom(ls_):
-                    # the empty "line" after a final line break (or of the empty text) may be omitted:
-                    # whether it exists is pinned by no statement (str.splitlines and pest omit it)
+                    # the empty "line" after a final line break (or of the empty text) has no character: a non-empty span
+                    # cannot touch it; for an empty span sitting on it, whether it exists is pinned by no statement
+                    # (str.splitlines and pest omit it): both accepted there
                     return ls_[:-1] if ls_ and ls_[-1] == "" and rows[L][2] == L and (b == L) else ls_
-                cands = [lines_for(b), lines_for(max(a, b - 1))]
-                cands += [no_phantom(c) for c in cands]
+                if a == b:
+                    cands = [lines_for(b), no_phantom(lines_for(b))]
+                else:
+                    cands = [no_phantom(lines_for(b)), lines_for(b - 1)]
                 ok = got_lines in cands
                 if not ok:
                     bad(f"Span({a},{b}).lines() = {got_lines}, lines touched = {lines_for(b)} (or {lines_for(max(a, b - 1))})", span=[a, b], observed=got_lines)
